@@ -276,8 +276,6 @@ def classes_of(c):
     out = ["mode:" + mode["k"]] + ["feature:" + f for f in prog["features"]]
     k = mode["k"]
     n = len(prog["pool"])
-    if k == "means" and shared_with_different_config(prog, c.get("wms")):
-        out.append("shared-prior-config-mixup")
     if k == "bounded":
         b = unhex(mode["b"])
         if b > 0 and any(unhex(f) - b >= unhex(f) + b for f in mode["floats"][:n]):
@@ -670,7 +668,6 @@ def expect_success(c):
 KNOWN_BY_MESSAGE = [
     # (prefix of the oracle message, finding class that can explain it, required exception or None)
     ("passing raised", "bounded-absorbed", "PriorException"),
-    ("configuration of a shared prior", "shared-prior-config-mixup", None),
 ]
 
 
@@ -1078,12 +1075,12 @@ MANIFEST = {
             "id order, those derived from each parameter's own value (means, bounded), own limits (with_limits, by prior family) or own "
             "replacement; success characterised per mode (full over exact numbers for absolute / relative / configured widths of any "
             "sign and for bounded; refuted in binary64 for bounded when value +- b rounds to value); no produced Gaussian has a negative "
-            "width; an unshared parameter is configured under its own (class, attribute), refuted for a prior shared between a model and "
-            "its child (known finding); with_limits by family incl. log-gaussian (repaired d755794). Tied to the code by bit-exact vm_compute correspondence of the passed model, its priors and "
+            "width; an unshared parameter is configured under its own (class, attribute), a shared one under class and name of its last place "
+            "(repaired a8a9b5b; legacy witness kept); with_limits by family incl. log-gaussian (repaired d755794). Tied to the code by bit-exact vm_compute correspondence of the passed model, its priors and "
             "exceptions on generated compositions x modes x vectors of any sign/magnitude, plus a direct property oracle (incl. the "
             "af.Result routes, non-float constants of collections, where a tightened prior maps the unit interval)",
     "note": "Trusted: Coq kernel + vm_compute; translator; harness abstraction of live objects; config table read by the harness. Known "
-            "findings (suppressed, narrow classes): shared-prior-config-mixup, bounded-absorbed; the pinned cases of the seven repaired "
+            "finding (suppressed, narrow class): bounded-absorbed; the pinned cases of the eight repaired "
             "findings are regression obligations. Not modelled: AnnotationPriorModel, Array models, deferred arguments, "
             "subtraction / negated priors, excluded_classes of copy_with_fixed_priors, the message object of a prior (oracle only), "
             "Result.model caching, jax; arithmetic theorems are over exact rationals, binary64 only on a stated grid and by correspondence.",
